@@ -210,6 +210,15 @@ fn is_action_mapping(m: &Mapping) -> bool {
   }
 }
 
+fn has_action_key(keys: &Vec<KeyCode>) -> bool {
+  for k in keys {
+    if is_action_key(k) {
+      return true;
+    }
+  }
+  return false;
+}
+
 fn is_any_modifier(keys: &Vec<KeyCode>) -> bool {
   keys.iter().any(|k| !is_action_key(k))
 }
@@ -248,6 +257,8 @@ fn add_new_mapping(state: &mut State, new_key: &KeyCode, m: &Mapping) -> StepRes
   
   if is_action_mapping(m) {
     events.append(&mut release_action_mappings(state));
+  }
+  if has_action_key(&m.to) {
     let should_absorb = {
       match &state.absorbing_trigger {
         Some(absorbing_trigger) => *absorbing_trigger != *new_key,
